@@ -127,6 +127,10 @@ class Registry:
         self.immutable |= other.immutable
         self.val_classes += [c for c in other.val_classes if c not in self.val_classes]
         self.classes.update(other.classes)
-        self.rt_helpers.update(other.rt_helpers)
+        for k, v in other.rt_helpers.items():
+            if isinstance(v, dict):
+                self.rt_helpers.setdefault(k, {}).update(v)
+            else:
+                self.rt_helpers[k] = v
         self.unknown_callables.update(other.unknown_callables)
         self.lemmas.extend(other.lemmas)
